@@ -408,20 +408,29 @@ def eval_cases(fam: "Family", driver: "LeanDriver", batch: list) -> list[tuple]:
     """batch of cases -> list of (case, pyout_norm, parsed driver result); runs in workers too."""
     import signal
     pyouts, lines = [], []
+    # Per-case time limit. The limit is on the CPU time of this process (ITIMER_PROF), so that a
+    # loaded machine cannot turn a slow case into a spurious `py-timeout`; a generous wall-clock limit
+    # (10x, at least 60 s) still catches an implementation that blocks without using CPU.
     signal.signal(signal.SIGALRM, _on_alarm)
-    tmo = float(getattr(fam, "case_timeout", 20.0))
+    signal.signal(signal.SIGPROF, _on_alarm)
+    tmo = float(getattr(fam, "case_timeout", 20.0)) * float(os.environ.get("VERIF_TIMEOUT_SCALE", "1") or 1)
+    n_to = 0
+    evaluated = []
     for case in batch:
+        if n_to >= 3:
+            break  # the implementation hangs: three time-outs are enough evidence from this batch
+        evaluated.append(case)
         try:
-            signal.setitimer(signal.ITIMER_REAL, tmo)
+            signal.setitimer(signal.ITIMER_PROF, tmo)
+            signal.setitimer(signal.ITIMER_REAL, max(10 * tmo, 60.0))
             try:
                 fam.reset()
                 out = fam.run_impl(case)
             finally:
+                signal.setitimer(signal.ITIMER_PROF, 0)
                 signal.setitimer(signal.ITIMER_REAL, 0)
         except CaseTimeout:
-            n_to = locals().get("n_to", 0) + 1
-            if n_to >= 2:
-                tmo = min(tmo, 0.5)  # the implementation hangs: do not burn the budget on it
+            n_to += 1
             out = "py-timeout"  # non-termination of the implementation: rejected by every Spec
         except Exception as e:  # un-mapped exception from the implementation
             out = ["py-exception", type(e).__name__]
@@ -436,7 +445,7 @@ def eval_cases(fam: "Family", driver: "LeanDriver", batch: list) -> list[tuple]:
         pyouts.append(po)
         lines.append(line)
     outs = driver.run(lines)
-    return [(c, po, parse_result(o)) for c, po, o in zip(batch, pyouts, outs)]
+    return [(c, po, parse_result(o)) for c, po, o in zip(evaluated, pyouts, outs)]
 
 
 _WORKER = {}
@@ -541,6 +550,10 @@ class Runner:
                     st["exhaustive"] = False
                     st["stopped_on_failures"] = True
                     break
+                if st.get("timeouts", 0) >= 6:
+                    st["exhaustive"] = False
+                    st["stopped_on_timeouts"] = True
+                    break
                 if time.time() > deadline:
                     st["exhaustive"] = False
                     st["stopped_on_budget"] = True
@@ -581,6 +594,8 @@ class Runner:
                 st["nontrivial"] += 1
         if len(self.samples) < 14 and (st["evaluations"] in (1, 7, 97) or (nt and st["evaluations"] % 1013 == 5)):
             self.samples.append({"family": fam.name, "case": fam.describe(case), "python": po, "lean": res})
+        if po == "py-timeout":
+            st["timeouts"] = st.get("timeouts", 0) + 1
         fail = self.classify(fam, case, po, res)
         if fail is not None:
             if getattr(fam, "known_findings_uncounted", False) and match_finding(fail, self._known_findings()) is not None:
@@ -728,9 +743,20 @@ def main(prop: Property, argv=None):
     t0 = time.time()
     import threading
 
+    try:
+        os.setpgrp()  # own process group, so that the watchdog can take the worker processes down too
+    except OSError:
+        pass
+
     def _watchdog():
         print("INTERNAL: time-out (watchdog after %.0fs)" % (time.time() - t0))
         sys.stdout.flush()
+        import signal as _sig
+        _sig.signal(_sig.SIGTERM, _sig.SIG_IGN)
+        try:
+            os.killpg(os.getpgrp(), _sig.SIGTERM)
+        except OSError:
+            pass
         os._exit(2)
     wd = threading.Timer(budget * 2.5 + 300, _watchdog)
     wd.daemon = True
@@ -773,8 +799,22 @@ def _main(prop, tier, seed, budget, replay, t0):
         print(json.dumps({"case": case, "python": po, "lean": res, "failure": None if fail is None else fail.kind}, default=str))
         return 1 if fail is not None else 0
 
-    # if the proof step is broken, the failing-input search uses the thorough generators
-    gen_tier = "thorough" if proof_broken and tier == "quick" else tier
+    # source anchors: the glue functions this property's model transcribes (props.d/Cxx/anchors.json,
+    # AST fingerprints). A changed anchored function is not a violation by itself, but the model may no
+    # longer describe the code: the quick tier then runs the thorough generators within its budget.
+    anchors_n, anchors_changed = 0, []
+    try:
+        sys.path.insert(0, os.path.join(VERIF, "tools"))
+        import anchors as _anchors
+        anchors_n, anchors_changed = _anchors.drift(prop.id, REPO)
+    except Exception as e:  # never let bookkeeping break a check
+        anchors_changed = []
+        print("NOTE: anchor fingerprints not evaluated: %r" % (e,))
+    if anchors_changed:
+        print("NOTE: %d of %d anchored source functions changed since the model was last tied to the code (%s%s): deeper search" % (
+            len(anchors_changed), anchors_n, ", ".join(a.split("::")[1] for a in anchors_changed[:4]), ", ..." if len(anchors_changed) > 4 else ""))
+    # if the proof step is broken or anchored code changed, the failing-input search uses the thorough generators
+    gen_tier = "thorough" if (proof_broken or anchors_changed) and tier == "quick" else tier
     runner.tier = gen_tier
     rng_master = random.Random(seed)
     # first: replay the committed corpus — the replay case of every listed finding (known: must still
@@ -825,8 +865,22 @@ def _main(prop, tier, seed, budget, replay, t0):
     groups = {}
     for fail in runner.failures:
         groups.setdefault((fail.family, fail.kind, json.dumps(fail.signature, sort_keys=True, default=str)), []).append(fail)
+    unreproducible_timeouts = 0
     for (famname, kind, _sig), fails in groups.items():
         fam = fams[famname]
+        if fails[0].pyout == "py-timeout":
+            # a time-out is only believed if it happens again when the case is run alone, serially,
+            # with a 5x larger limit (a hang reproduces; scheduling noise does not)
+            os.environ["VERIF_TIMEOUT_SCALE"] = "5"
+            try:
+                again = [runner.classify(fam, *runner.eval_batch(fam, [f.case])[0]) for f in fails[:3]]
+            finally:
+                os.environ["VERIF_TIMEOUT_SCALE"] = "1"
+            if all(a is None for a in again):
+                unreproducible_timeouts += len(fails)
+                print("NOTE: %d time-out(s) in family %s did not reproduce when re-run alone; not reported" % (len(fails), famname))
+                continue
+            fails = [a for a in again if a is not None] + fails
         fail = runner.shrink(fam, fails[0])
         kf = match_finding(fail, findings) or match_finding(fails[0], findings)
         if kf is not None:
@@ -857,7 +911,9 @@ def _main(prop, tier, seed, budget, replay, t0):
     for l in out_lines:
         print(l)
     wall = time.time() - t0
-    write_evidence(prop, tier, seed, rep, runner, violations, sorted(known_hit), wall)
+    write_evidence(prop, tier, seed, rep, runner, violations, sorted(known_hit), wall,
+                   extra={"unreproducible_timeouts": unreproducible_timeouts, "anchored_functions": anchors_n,
+                          "anchored_changed": anchors_changed, "generators_tier": gen_tier})
     print("%s %s: proof %d/%d theorems, %d evaluations (%d distinct non-trivial), %d failures grouped, %d violations, %.1fs" % (
         prop.id, tier, rep.discharged, rep.obligations, runner.evaluations, len(runner.nontrivial_keys), len(groups), violations, wall))
     return 1 if violations else 0
